@@ -748,4 +748,407 @@ theorem appendMem_plain (st : St) (data : Bytes) (hd : st.decodeChunked = false)
     · rw [if_neg h2, if_neg h2, chunkAppend_plain _ _ hsc]
 
 
+/-! ## http_header_parse_hoff on a well-formed head -/
+
+theorem hoffGo_noLf (p : Bytes) : ∀ (rest cur : Bytes) (lines : List Bytes) (n : Nat), lf ∉ p →
+    hoffGo (p ++ rest) cur lines n = hoffGo rest (cur ++ p) lines (n + p.length) := by
+  induction p with
+  | nil => intro rest cur lines n _; simp
+  | cons x xs ih =>
+    intro rest cur lines n h
+    have hx : ¬ (x = lf) := fun e => h (by simp [e])
+    simp only [List.cons_append, hoffGo, hx, if_false]
+    rw [ih rest (cur ++ [x]) lines (n + 1) (fun e => h (by simp [e]))]
+    simp only [List.append_assoc, List.singleton_append, List.length_cons]
+    congr 1
+    omega
+
+/-- a header line: no LF inside, terminated by LF, not the empty line -/
+structure WfLine (l : Bytes) : Prop where
+  pre : ∃ p, l = p ++ [lf] ∧ lf ∉ p
+  notBlank : l ≠ [lf] ∧ l ≠ [cr, lf]
+
+theorem hoffGo_line {l : Bytes} (h : WfLine l) (rest : Bytes) (lines : List Bytes) (n : Nat)
+    (hn : lines.length + 1 < 8190) :
+    hoffGo (l ++ rest) [] lines n = hoffGo rest [] (l :: lines) (n + l.length) := by
+  obtain ⟨p, hl, hlf⟩ := h.pre
+  have hnb := h.notBlank
+  subst hl
+  rw [List.append_assoc, hoffGo_noLf p _ [] lines n hlf]
+  simp only [List.nil_append, List.singleton_append, hoffGo, if_true]
+  have h1 : (decide (p ++ [lf] = [lf]) || decide (p ++ [lf] = [cr, lf])) = false := by
+    simp [hnb.1, hnb.2]
+  have h2 : ¬ (lines.length + 1 ≥ 8190) := by omega
+  rw [if_neg (by rw [h1]; simp), if_neg h2]
+  simp only [List.length_append, List.length_singleton, Nat.add_assoc]
+
+theorem hoffGo_lines (ls : List Bytes) : ∀ (rest : Bytes) (lines : List Bytes) (n : Nat),
+    (∀ l ∈ ls, WfLine l) → lines.length + ls.length < 8190 →
+    hoffGo (ls.flatten ++ rest) [] lines n = hoffGo rest [] (ls.reverse ++ lines) (n + ls.flatten.length) := by
+  induction ls with
+  | nil => intro rest lines n _ _; simp
+  | cons l more ih =>
+    intro rest lines n hw hn
+    simp only [List.flatten_cons, List.append_assoc, List.length_cons] at hn ⊢
+    rw [hoffGo_line (hw l (by simp)) _ lines n (by omega),
+        ih rest (l :: lines) (n + l.length) (fun x hx => hw x (by simp [hx])) (by simp; omega)]
+    simp only [List.reverse_cons, List.append_assoc, List.singleton_append, List.length_append]
+    congr 1
+    omega
+
+/-- the head `lines ++ CRLF` is found complete, with exactly these lines and its exact length -/
+theorem hoff_head (ls : List Bytes) (rest : Bytes) (hw : ∀ l ∈ ls, WfLine l) (hn : ls.length < 8190) :
+    hoff (ls.flatten ++ [cr, lf] ++ rest) = (ls, ls.flatten.length + 2) := by
+  unfold hoff
+  rw [List.append_assoc, hoffGo_lines ls _ [] 0 hw (by simpa using hn)]
+  have : hoffGo ([cr, lf] ++ rest) [] (ls.reverse ++ []) (0 + ls.flatten.length)
+      = ((ls.reverse ++ []).reverse, 0 + ls.flatten.length + 1 + 1) := by
+    simp [hoffGo, cr, lf]
+  rw [this]
+  simp
+
+theorem firstLine_line {l : Bytes} (h : WfLine l) (rest : Bytes) : firstLine (l ++ rest) = some l := by
+  obtain ⟨p, hl, hlf⟩ := h.pre
+  subst hl
+  unfold firstLine
+  rw [List.append_assoc, findIdx_skip (· = lf) p _ 0 (by intro b hb; simp; exact fun e => hlf (e ▸ hb))]
+  have hf : findIdx (fun x => decide (x = lf)) ([lf] ++ rest) (0 + p.length) = some p.length := by
+    simp [findIdx]
+  rw [hf]
+  simp only
+  have : p ++ ([lf] ++ rest) = (p ++ [lf]) ++ rest := by simp
+  rw [this, List.take_append_of_le_length (by simp), List.take_of_length_le (by simp)]
+
+
+theorem fields_relayed_aux (cfg : Cfg) (st : St) (fs : List (Bytes × Bytes))
+    (hp : ∀ f ∈ fs, PlainField f.1 f.2)
+    (hnd : ((st.headers ++ fs).map fun kv => lower kv.1).Nodup) :
+    (fs.map fun f => fieldLine f.1 f.2).foldl (applyLine cfg) st = { st with headers := st.headers ++ fs } := by
+  rw [foldl_applyLine_plain cfg fs st hp,
+      foldl_hdrInsert_fresh _ fs st.headers (fun f hf => (hp f hf).vne) hnd]
+
+/-! ## a complete Content-Length response from an HTTP backend, in one read -/
+
+/-- `HTTP/1.1 d1d2d3 reason CRLF` -/
+def statusLineBytes (d1 d2 d3 : UInt8) (reason : Bytes) : Bytes :=
+  72 :: 84 :: 84 :: 80 :: 47 :: 49 :: 46 :: 49 :: 32 :: d1 :: d2 :: d3 :: 32 :: (reason ++ [cr, lf])
+
+def codeOf (d1 d2 d3 : UInt8) : Nat := (d1 - 48).toNat * 100 + (d2 - 48).toNat * 10 + (d3 - 48).toNat
+
+theorem statusLine_wf (d1 d2 d3 : UInt8) (reason : Bytes) (hd : isDigit d1 ∧ isDigit d2 ∧ isDigit d3)
+    (hr : lf ∉ reason) : WfLine (statusLineBytes d1 d2 d3 reason) := by
+  have hne : ∀ d : UInt8, isDigit d = true → d ≠ lf := by
+    intro d h e; subst e; simp [isDigit, lf] at h
+  refine ⟨⟨72 :: 84 :: 84 :: 80 :: 47 :: 49 :: 46 :: 49 :: 32 :: d1 :: d2 :: d3 :: 32 :: (reason ++ [cr]), ?_, ?_⟩, ?_, ?_⟩
+  · simp [statusLineBytes]
+  · simp only [List.mem_cons, List.mem_append, List.mem_singleton, not_or]
+    refine ⟨by decide, by decide, by decide, by decide, by decide, by decide, by decide, by decide, by decide,
+            fun e => hne d1 hd.1 e.symm, fun e => hne d2 hd.2.1 e.symm, fun e => hne d3 hd.2.2 e.symm, by decide, hr, by decide, ?_⟩
+    simp
+  · simp [statusLineBytes]
+  · simp [statusLineBytes]
+
+theorem nphStatus_statusLine (cfg : Cfg) (d1 d2 d3 : UInt8) (reason rest : Bytes)
+    (hd : isDigit d1 ∧ isDigit d2 ∧ isDigit d3) (hc : codeOf d1 d2 d3 ≥ 100) :
+    nphStatus cfg (statusLineBytes d1 d2 d3 reason ++ rest) = some (codeOf d1 d2 d3) := by
+  unfold nphStatus statusLineBytes
+  simp [List.getD, hd.1, hd.2.1, hd.2.2, dot, sp, cr, lf, ht, codeOf] 
+  exact hc
+
+
+theorem fieldLine_wf (k v : Bytes) (hk : lf ∉ k) (hv : lf ∉ v) : WfLine (fieldLine k v) := by
+  refine ⟨⟨k ++ [colon, sp] ++ v ++ [cr], by simp [fieldLine], ?_⟩, ?_, ?_⟩
+  · simp only [List.mem_append, List.mem_cons, List.not_mem_nil, or_false, not_or]
+    exact ⟨⟨⟨hk, by decide, by decide⟩, hv⟩, by decide⟩
+  · intro e
+    have := congrArg List.length e
+    simp [fieldLine] at this
+    omega
+  · intro e
+    have := congrArg List.length e
+    simp [fieldLine] at this
+    omega
+
+/-- the Content-Length field of the backend: sets the expected body length, relayed verbatim -/
+theorem applyLine_contentLength (cfg : Cfg) (st : St) (clv : Bytes) (n : Nat)
+    (hne : clv ≠ []) (hhead : isWs (clv.headD 0) = false) (hplus : clv.head? ≠ some 43)
+    (htrim : trimRightWs clv = clv) (hnum : strtoI64 clv = some n)
+    (hdc : st.decodeChunked = false) (hno : hdrFind st.headers nContentLength = none) :
+    applyLine cfg st (fieldLine (ofString "Content-Length") clv) =
+      { st with scratch := n, headers := st.headers ++ [(ofString "Content-Length", clv)] } := by
+  have hfl : fieldOfLine (fieldLine (ofString "Content-Length") clv) = some (ofString "Content-Length", clv) := by
+    -- same shape as a plain field
+    unfold fieldOfLine fieldLine
+    have hbody : (ofString "Content-Length" ++ [colon, sp] ++ clv ++ [cr, lf]).dropLast
+        = ofString "Content-Length" ++ (colon :: sp :: (clv ++ [cr])) := by
+      have : ofString "Content-Length" ++ [colon, sp] ++ clv ++ [cr, lf]
+          = (ofString "Content-Length" ++ (colon :: sp :: (clv ++ [cr]))) ++ [lf] := by simp
+      rw [this, List.dropLast_concat]
+    simp only [hbody]
+    rw [findIdx_skip (· = colon) (ofString "Content-Length") _ 0 (by decide)]
+    simp only [findIdx, decide_true, if_true, Nat.zero_add]
+    have htake : (ofString "Content-Length" ++ colon :: sp :: (clv ++ [cr])).take (ofString "Content-Length").length
+        = ofString "Content-Length" := by simp
+    have hdrop : (ofString "Content-Length" ++ colon :: sp :: (clv ++ [cr])).drop ((ofString "Content-Length").length + 1)
+        = sp :: (clv ++ [cr]) := by rw [List.drop_append]; simp
+    have hk : (ofString "Content-Length").isEmpty = false := by decide
+    simp only [htake, hk, Bool.false_eq_true, if_false, hdrop]
+    obtain ⟨x, xs, hv⟩ : ∃ x xs, clv = x :: xs := by
+      cases clv with
+      | nil => exact absurd rfl hne
+      | cons x xs => exact ⟨x, xs, rfl⟩
+    have hx : isWs x = false := by simpa [hv] using hhead
+    have hsp : isWs sp = true := by decide
+    have hdw : (sp :: (clv ++ [cr])).dropWhile isWs = clv ++ [cr] := by
+      rw [List.dropWhile_cons, if_pos hsp, hv, List.cons_append, List.dropWhile_cons, if_neg (by simp [hx])]
+    rw [hdw]
+    simp
+  unfold applyLine
+  rw [hfl]
+  have hl : lower (ofString "Content-Length") = nContentLength := by decide
+  have h1 : ¬ (nContentLength = nStatus) := by decide
+  have h2 : ¬ (nContentLength = nUpgrade) := by decide
+  have h3 : ¬ (nContentLength = nConnection) := by decide
+  have h4 : ¬ (nContentLength = nContentType) := by decide
+  have hhas : hasHdr st.headers nContentLength = false := by simp [hasHdr, hno]
+  have hte : clv.isEmpty = false := by cases clv <;> simp_all
+  unfold applyField
+  simp only [hl, h1, h2, h3, h4, if_false, if_true, hplus, hdc, hhas, Bool.not_false, Bool.and_self, htrim, hte,
+    Bool.false_eq_true, hnum]
+  have hins : hdrInsert (decide (cfg.ver ≥ 2)) st.headers (ofString "Content-Length") clv
+      = st.headers ++ [(ofString "Content-Length", clv)] :=
+    hdrInsert_fresh _ st.headers _ clv hne (by rw [hl]; exact hno)
+  rw [hins]
+
+
+/-- a plain field that can stand on a header line: additionally no LF in name and value -/
+structure LineField (k v : Bytes) : Prop extends PlainField k v where
+  klf : lf ∉ k
+  vlf : lf ∉ v
+
+/-- the head of a Content-Length response: status line, plain fields, Content-Length, empty line -/
+def clLines (d1 d2 d3 : UInt8) (reason : Bytes) (fs : List (Bytes × Bytes)) (clv : Bytes) : List Bytes :=
+  statusLineBytes d1 d2 d3 reason :: ((fs.map fun f => fieldLine f.1 f.2) ++ [fieldLine (ofString "Content-Length") clv])
+
+def clHead (d1 d2 d3 : UInt8) (reason : Bytes) (fs : List (Bytes × Bytes)) (clv : Bytes) : Bytes :=
+  (clLines d1 d2 d3 reason fs clv).flatten ++ [cr, lf]
+
+theorem processHeaders_cl (cfg : Cfg) (st : St) (d1 d2 d3 : UInt8) (reason rest : Bytes)
+    (fs : List (Bytes × Bytes)) (clv : Bytes) (n : Nat)
+    (hd : isDigit d1 ∧ isDigit d2 ∧ isDigit d3) (hc : codeOf d1 d2 d3 ≥ 100)
+    (hfs : ∀ f ∈ fs, PlainField f.1 f.2) (hnd : (fs.map fun kv => lower kv.1).Nodup)
+    (hne : clv ≠ []) (hhead : isWs (clv.headD 0) = false) (hplus : clv.head? ≠ some 43)
+    (htrim : trimRightWs clv = clv) (hnum : strtoI64 clv = some n)
+    (hh : st.headers = []) (hdc : st.decodeChunked = false) :
+    processHeaders cfg st (statusLineBytes d1 d2 d3 reason ++ rest) (clLines d1 d2 d3 reason fs clv) true =
+      { st with status := codeOf d1 d2 d3, scratch := n, headers := fs ++ [(ofString "Content-Length", clv)] } := by
+  have hdrop : (clLines d1 d2 d3 reason fs clv).drop 1
+      = (fs.map fun f => fieldLine f.1 f.2) ++ [fieldLine (ofString "Content-Length") clv] := by
+    simp [clLines]
+  have hno : hdrFind ([] ++ fs) nContentLength = none := by
+    apply hdrFind_none_of_not_mem
+    intro hmem
+    simp only [List.nil_append, List.mem_map] at hmem
+    obtain ⟨f, hf, he⟩ := hmem
+    have := (hfs f hf).kspecial
+    simp only [specialNames, List.mem_cons, List.not_mem_nil, or_false, not_or] at this
+    exact this.2.2.2.2.1 he
+  have hfold : ((fs.map fun f => fieldLine f.1 f.2) ++ [fieldLine (ofString "Content-Length") clv]).foldl
+      (applyLine cfg) { st with status := codeOf d1 d2 d3 }
+      = { st with status := codeOf d1 d2 d3, scratch := n,
+                  headers := fs ++ [(ofString "Content-Length", clv)] } := by
+    rw [List.foldl_append, fields_relayed_aux cfg _ fs hfs (by simpa [hh] using hnd)]
+    simp only [List.foldl_cons, List.foldl_nil]
+    rw [applyLine_contentLength cfg _ clv n hne hhead hplus htrim hnum (by simpa using hdc) (by simpa [hh] using hno)]
+    simp [hh]
+  have hcode : ¬ (codeOf d1 d2 d3 = 0) := by omega
+  unfold processHeaders
+  simp only [if_true, nphStatus_statusLine cfg d1 d2 d3 reason rest hd hc, hdrop]
+  unfold applyLines
+  simp only [hfold, hcode, decide_false, Bool.false_and, Bool.false_eq_true, if_false]
+
+
+theorem clLines_wf (d1 d2 d3 : UInt8) (reason : Bytes) (fs : List (Bytes × Bytes)) (clv : Bytes)
+    (hd : isDigit d1 ∧ isDigit d2 ∧ isDigit d3) (hr : lf ∉ reason)
+    (hfs : ∀ f ∈ fs, LineField f.1 f.2) (hclv : lf ∉ clv) :
+    ∀ l ∈ clLines d1 d2 d3 reason fs clv, WfLine l := by
+  intro l hl
+  simp only [clLines, List.mem_cons, List.mem_append, List.mem_map, List.mem_singleton, List.not_mem_nil,
+    or_false] at hl
+  rcases hl with rfl | ⟨f, hf, rfl⟩ | rfl
+  · exact statusLine_wf d1 d2 d3 reason hd hr
+  · exact fieldLine_wf f.1 f.2 (hfs f hf).klf (hfs f hf).vlf
+  · exact fieldLine_wf _ clv (by decide) hclv
+
+/-- the response state right after such a response was parsed -/
+def clState (d1 d2 d3 : UInt8) (reason : Bytes) (fs : List (Bytes × Bytes)) (clv body : Bytes) : St :=
+  { hbuf := clHead d1 d2 d3 reason fs clv ++ body, status := codeOf d1 d2 d3, started := true,
+    finished := true, scratch := 0, headers := fs ++ [(ofString "Content-Length", clv)], wq := body }
+
+/-- http_response_parse_headers() on a complete Content-Length response received in one piece -/
+theorem parseHeaders_cl (cfg : Cfg) (d1 d2 d3 : UInt8) (reason : Bytes)
+    (fs : List (Bytes × Bytes)) (clv body : Bytes) (fuel : Nat)
+    (hd : isDigit d1 ∧ isDigit d2 ∧ isDigit d3) (hc : codeOf d1 d2 d3 ≥ 200) (hr : lf ∉ reason)
+    (hfs : ∀ f ∈ fs, LineField f.1 f.2) (hnd : (fs.map fun kv => lower kv.1).Nodup)
+    (hne : clv ≠ []) (hhead : isWs (clv.headD 0) = false) (hplus : clv.head? ≠ some 43)
+    (htrim : trimRightWs clv = clv) (hclv : lf ∉ clv) (hnum : strtoI64 clv = some body.length)
+    (hbody : body ≠ []) (hsize : (clHead d1 d2 d3 reason fs clv).length ≤ 65535) (hcount : fs.length + 2 < 8190) :
+    parseHeaders cfg (fuel + 1) { hbuf := clHead d1 d2 d3 reason fs clv ++ body } =
+      (clState d1 d2 d3 reason fs clv body, .goOn) := by
+  unfold clState
+  have hw := clLines_wf d1 d2 d3 reason fs clv hd hr hfs hclv
+  have hlen : (clLines d1 d2 d3 reason fs clv).length < 8190 := by simp [clLines]; omega
+  have hb : clHead d1 d2 d3 reason fs clv ++ body
+      = (clLines d1 d2 d3 reason fs clv).flatten ++ [cr, lf] ++ body := by simp [clHead]
+  have hhoff := hoff_head (clLines d1 d2 d3 reason fs clv) body hw hlen
+  have hheadlen : (clHead d1 d2 d3 reason fs clv).length = (clLines d1 d2 d3 reason fs clv).flatten.length + 2 := by
+    simp [clHead]
+  have hsl : clHead d1 d2 d3 reason fs clv ++ body
+      = statusLineBytes d1 d2 d3 reason ++
+        (((fs.map fun f => fieldLine f.1 f.2) ++ [fieldLine (ofString "Content-Length") clv]).flatten ++ [cr, lf] ++ body) := by
+    simp [clHead, clLines]
+  have hfirst : firstLine (clHead d1 d2 d3 reason fs clv ++ body) = some (statusLineBytes d1 d2 d3 reason) := by
+    rw [hsl]; exact firstLine_line (statusLine_wf d1 d2 d3 reason hd hr) _
+  have htake5 : (clHead d1 d2 d3 reason fs clv ++ body).take 5 = ofString "HTTP/" := by
+    rw [hsl]; simp [statusLineBytes, ofString]
+  have hsll : (statusLineBytes d1 d2 d3 reason).length ≥ 12 := by simp [statusLineBytes]
+  have hdropb : (clHead d1 d2 d3 reason fs clv ++ body).drop ((clLines d1 d2 d3 reason fs clv).flatten.length + 2) = body := by
+    rw [← hheadlen]; simp
+  have hproc := processHeaders_cl cfg ({ hbuf := clHead d1 d2 d3 reason fs clv ++ body } : St) d1 d2 d3 reason
+    (((fs.map fun f => fieldLine f.1 f.2) ++ [fieldLine (ofString "Content-Length") clv]).flatten ++ [cr, lf] ++ body)
+    fs clv body.length hd (by omega) (fun f hf => (hfs f hf).toPlainField) hnd hne hhead hplus htrim hnum rfl rfl
+  rw [← hsl] at hproc
+  have hbl : body.length > 0 := by cases body <;> simp_all
+  have hbe : body.isEmpty = false := by cases body <;> simp_all
+  rw [hb] at hfirst htake5 hdropb hproc ⊢
+  have h1 : ¬ ((clLines d1 d2 d3 reason fs clv).flatten.length + 2 = 0) := by omega
+  have h2 : ¬ ((clLines d1 d2 d3 reason fs clv).flatten.length + 2 > Extracted.maxHttpResponseFieldSize) := by
+    have : Extracted.maxHttpResponseFieldSize = 65535 := by decide
+    omega
+  have h3 : ¬ (codeOf d1 d2 d3 < 200) := by omega
+  unfold parseHeaders
+  simp only [hhoff, hfirst, htake5, hsll, decide_true, Bool.and_self, Bool.not_true, Bool.false_and,
+    Bool.false_eq_true, if_false, hdropb, hproc, h1, h2, h3, ne_eq, not_false_eq_true, if_true, decide_false,
+    Bool.not_false, hbe]
+  simp [appendMem, hbl, chunkAppend, hbe]
+
+
+theorem hasHdr_cl_appended (fs : List (Bytes × Bytes)) (clv : Bytes) (hne : clv ≠ [])
+    (hfs : ∀ f ∈ fs, PlainField f.1 f.2) :
+    hasHdr (fs ++ [(ofString "Content-Length", clv)]) nContentLength = true := by
+  have hno : hdrFind fs nContentLength = none := by
+    apply hdrFind_none_of_not_mem
+    intro hmem
+    simp only [List.mem_map] at hmem
+    obtain ⟨f, hf, he⟩ := hmem
+    have := (hfs f hf).kspecial
+    simp only [specialNames, List.mem_cons, List.not_mem_nil, or_false, not_or] at this
+    exact this.2.2.2.2.1 he
+  have hl : lower (ofString "Content-Length") = nContentLength := by decide
+  have hv : clv.isEmpty = false := by cases clv <;> simp_all
+  simp [hasHdr, hdrFind_append_none fs nContentLength _ clv hno, hl, hv]
+
+/-- write-prepare leaves a finished response with Content-Length from a live handler alone -/
+theorem writePrepare_cl_id (cfg : Cfg) (st : St) (hh : cfg.head = false) (hhd : st.handler = true)
+    (hf : st.finished = true) (hdc : st.dc = none)
+    (hcode : st.status ≠ 204 ∧ st.status ≠ 205 ∧ st.status ≠ 304)
+    (hcl : hasHdr st.headers nContentLength = true) : writePrepare cfg st = st := by
+  have hs : wpStatus st = st := by
+    unfold wpStatus
+    simp only [hcode.1, hcode.2.1, hcode.2.2, decide_false, Bool.or_self, Bool.false_eq_true, if_false]
+    split
+    · rfl
+    · split
+      · simp [staticErrdoc, hhd]
+      · rfl
+  unfold writePrepare
+  rw [hs, mergeTrailers_dc_none cfg st hdc]
+  have hl : wpLength cfg st = st := by
+    simp [wpLength, hf, wpSetLength, noLen, hcl]
+  rw [hl]
+  simp [wpHead, hh]
+
+/-- **One-shot relay of a Content-Length response (HTTP/1.1 client, HTTP backend).** -/
+theorem relay_cl_exact (cfg : Cfg) (d1 d2 d3 : UInt8) (reason : Bytes)
+    (fs : List (Bytes × Bytes)) (clv body : Bytes) (e : End)
+    (hbe : cfg.be = .proxy) (hv : cfg.ver = 1) (hh : cfg.head = false)
+    (hd : isDigit d1 ∧ isDigit d2 ∧ isDigit d3) (hc : codeOf d1 d2 d3 ≥ 200) (hr : lf ∉ reason)
+    (hcode : codeOf d1 d2 d3 ≠ 204 ∧ codeOf d1 d2 d3 ≠ 205 ∧ codeOf d1 d2 d3 ≠ 304)
+    (hfs : ∀ f ∈ fs, LineField f.1 f.2) (hnd : (fs.map fun kv => lower kv.1).Nodup)
+    (hne : clv ≠ []) (hhead : isWs (clv.headD 0) = false) (hplus : clv.head? ≠ some 43)
+    (htrim : trimRightWs clv = clv) (hclv : lf ∉ clv) (hnum : strtoI64 clv = some body.length)
+    (hbody : body ≠ []) (hsize : (clHead d1 d2 d3 reason fs clv).length ≤ 65535) (hcount : fs.length + 2 < 8190) :
+    (relay cfg [clHead d1 d2 d3 reason fs clv ++ body] e).evs =
+      [.w (h1StatusLine cfg (codeOf d1 d2 d3) ++ h1FieldLines (fs ++ [(ofString "Content-Length", clv)]) ++
+           crlf ++ crlf ++ body)] ∧
+    (relay cfg [clHead d1 d2 d3 reason fs clv ++ body] e).keepAlive = true ∧
+    (relay cfg [clHead d1 d2 d3 reason fs clv ++ body] e).cstate = .done ∧
+    (relay cfg [clHead d1 d2 d3 reason fs clv ++ body] e).status = codeOf d1 d2 d3 := by
+  have hbe' : cfg.be ≠ .fcgi := by rw [hbe]; decide
+  have hseg : (clHead d1 d2 d3 reason fs clv ++ body).isEmpty = false := by cases body <;> simp_all
+  have hparse := parseHeaders_cl cfg d1 d2 d3 reason fs clv body (clHead d1 d2 d3 reason fs clv ++ body).length
+    hd hc hr hfs hnd hne hhead hplus htrim hclv hnum hbody hsize hcount
+  -- the state after the read
+  generalize hst1 : clState d1 d2 d3 reason fs clv body = st1 at hparse
+  unfold clState at hst1
+  have hhs : headerStep cfg {} (clHead d1 d2 d3 reason fs clv ++ body) = (st1, .goOn) := by
+    unfold headerStep
+    simpa using hparse
+  have hread : readPlain cfg {} (clHead d1 d2 d3 reason fs clv ++ body) = ({ st1 with hbuf := [] }, .finished) := by
+    unfold readPlain
+    rw [if_pos (by rfl), hhs]
+    subst hst1
+    simp
+  have hrecv : gwRecvData cfg {} (clHead d1 d2 d3 reason fs clv ++ body) = { st1 with hbuf := [], open_ := false } := by
+    unfold gwRecvData
+    rw [if_neg hbe', hread]
+    subst hst1
+    simp [gwClose, backendDone]
+  generalize hst2 : ({ st1 with hbuf := [], open_ := false } : St) = st2 at hrecv
+  have f1 : st2.status = codeOf d1 d2 d3 := by subst hst2 hst1; rfl
+  have f2 : st2.finished = true := by subst hst2 hst1; rfl
+  have f3 : st2.handler = true := by subst hst2 hst1; rfl
+  have f4 : st2.dc = none := by subst hst2 hst1; rfl
+  have f5 : st2.headers = fs ++ [(ofString "Content-Length", clv)] := by subst hst2 hst1; rfl
+  have f6 : st2.wq = body := by subst hst2 hst1; rfl
+  have f7 : st2.keepAlive = true := by subst hst2 hst1; rfl
+  have f8 : st2.cstate = .handle := by subst hst2 hst1; rfl
+  have f9 : st2.open_ = false := by subst hst2 hst1; rfl
+  have f10 : st2.evs = [] := by subst hst2 hst1; rfl
+  have hwp : writePrepare cfg st2 = st2 :=
+    writePrepare_cl_id cfg st2 hh f3 f2 f4 (by rw [f1]; exact hcode)
+      (by rw [f5]; exact hasHdr_cl_appended fs clv hne (fun f hf => (hfs f hf).toPlainField))
+  have hset : h1HeaderSet cfg st2 = st2.headers := by
+    have h0 : ¬ (cfg.ver = 0) := by omega
+    simp [h1HeaderSet, f7, h0, f1, hcode.2.2]
+  have hcon : conStep cfg st2 =
+      { (h1SendHeaders cfg st2) with cstate := .done, wq := [], evs := [.w (h1SendHeaders cfg st2).wq] } := by
+    have hv2 : ¬ (cfg.ver ≥ 2) := by omega
+    have hs0 : ¬ (st2.status = 0) := by rw [f1]; omega
+    have hwne : (h1SendHeaders cfg st2).wq.isEmpty = false := by
+      simp [h1SendHeaders, h1StatusLine, hv, ofString]
+    unfold conStep
+    simp only [f8, handlerStarts, subrequestWaits, f9, Bool.false_eq_true, if_false, if_true]
+    unfold startResponse
+    simp only [hs0, if_false, hwp, hv2]
+    have hpw : pushW [] (h1SendHeaders cfg st2).wq = [.w (h1SendHeaders cfg st2).wq] := by
+      simp [pushW, hwne]
+    have hev : (h1SendHeaders cfg st2).evs = [] := by simp [h1SendHeaders, f10]
+    have hfin : (h1SendHeaders cfg st2).finished = true := by simp [h1SendHeaders, f2]
+    simp only [h1Progress, flush, hev, hpw, hfin, if_true]
+  have hdata : onData cfg {} (clHead d1 d2 d3 reason fs clv ++ body) = conStep cfg st2 := by
+    unfold onData
+    rw [if_neg (by simp [hseg]), if_neg (by simp [lostHandler]), hrecv]
+  have hrel : relay cfg [clHead d1 d2 d3 reason fs clv ++ body] e = conStep cfg st2 := by
+    unfold relay
+    simp only [List.foldl_cons, List.foldl_nil, hdata]
+    unfold onEnd
+    rw [if_pos (by rw [hcon]; simp)]
+  rw [hrel, hcon]
+  refine ⟨?_, ?_, rfl, ?_⟩
+  · simp [h1SendHeaders, hset, f5, f6, f1]
+  · simp [h1SendHeaders, f7]
+  · simp [h1SendHeaders, f1]
+
+
 end LtVerif.BeResp
